@@ -225,6 +225,76 @@ def recover(path, requests, fixed):
     return out
 
 
+# ------------------------------------------------------------------ result products under user-given names
+# what the user hands to to_files / to_file is a path of ANY shape (dots in the last component, a suffix
+# that looks like an extension, nested / relative directories, str or pathlib.Path); nothing here knows
+# which file names the implementation derives from it
+TRIPLES = ("CorrData", "RedshiftData", "HistData")
+SINGLES = ("CorrFunc", "Configuration")
+
+
+def named_object(what, value, res_dir):
+    """the product `what` holding value A / B (built from the reference results of the scale)"""
+    yaw = Y()
+    if what in TRIPLES:
+        cd = yaw.CorrData.from_files(os.path.join(res_dir, "cd" + value))
+        if what == "CorrData":
+            return cd
+        cls = yaw.RedshiftData if what == "RedshiftData" else yaw.HistData
+        return cls(cd.binning, cd.data.copy(), cd.samples.copy())
+    if what == "CorrFunc":
+        return yaw.CorrFunc.from_file(os.path.join(res_dir, "cf%s.hdf5" % value))
+    if what == "Configuration":
+        return config({"A": "b1", "B": "b2"}[value])
+    raise ValueError(what)
+
+
+def user_path(arg, as_path):
+    if as_path:
+        from pathlib import Path
+        return Path(arg)
+    return arg
+
+
+def write_named(what, obj, arg, as_path):
+    if what in TRIPLES:
+        obj.to_files(user_path(arg, as_path))
+    else:
+        obj.to_file(user_path(arg, as_path))
+
+
+def read_named(what, arg, as_path):
+    """-> digest of what the next user gets from the same path, or error:T"""
+    yaw = Y()
+    try:
+        if what in TRIPLES:
+            obj = getattr(yaw, what).from_files(user_path(arg, as_path))
+            return type(obj).__name__ + ":" + digest_corrdata(obj)
+        if what == "CorrFunc":
+            return digest_corrfunc(yaw.CorrFunc.from_file(user_path(arg, as_path)))
+        obj = yaw.Configuration.from_file(user_path(arg, as_path))
+        return hashlib.sha1(json.dumps(obj.to_dict(), sort_keys=True, default=str).encode()).hexdigest()
+    except BaseException as e:  # noqa
+        if isinstance(e, (KeyboardInterrupt, SystemExit)):
+            raise
+        return err(e)
+
+
+class in_dir:
+    """relative user paths are resolved against the working directory"""
+
+    def __init__(self, cwd):
+        self.cwd = cwd
+
+    def __enter__(self):
+        self.back = os.getcwd()
+        if self.cwd:
+            os.chdir(self.cwd)
+
+    def __exit__(self, *a):
+        os.chdir(self.back)
+
+
 # ------------------------------------------------------------------ worker
 def worker():
     fixed = None
@@ -283,6 +353,14 @@ def worker():
                     if isinstance(e, (KeyboardInterrupt, SystemExit)):
                         raise
                     rs = {"ok": True, "result": err(e), "msg": str(e)[:200]}
+            elif cmd == "write_named":
+                obj = named_object(rq["what"], rq["value"], rq["res_dir"])
+                with in_dir(rq.get("cwd")):
+                    write_named(rq["what"], obj, rq["arg"], rq.get("as_path", False))
+                rs = {"ok": True}
+            elif cmd == "read_named":
+                with in_dir(rq.get("cwd")):
+                    rs = {"ok": True, "result": read_named(rq["what"], rq["arg"], rq.get("as_path", False))}
             elif cmd == "trees_info":
                 # structural description of a trees.pkl (for the harness' abstraction; pickles of KDTrees with
                 # inner nodes are not byte-reproducible): complete? single tree or tuple? records per tree
@@ -331,6 +409,8 @@ def run_workload(w):
         w["_obj"].to_file(w["path"])
     elif kind == "corrdata":
         w["_obj"].to_files(w["prefix"])
+    elif kind == "product":
+        write_named(w["what"], w["_obj"], w["arg"], w.get("as_path", False))
     else:
         raise ValueError(kind)
 
@@ -344,6 +424,8 @@ def prepare_workload(w):
         w["_obj"] = yaw.CorrFunc.from_file(w["source"])
     elif w["kind"] == "corrdata":
         w["_obj"] = yaw.CorrData.from_files(w["source"])
+    elif w["kind"] == "product":
+        w["_obj"] = named_object(w["what"], w["value"], w["res_dir"])
 
 
 def workloads(spec_path):
@@ -353,9 +435,16 @@ def workloads(spec_path):
     fd = os.open(spec["marks"], os.O_WRONLY | os.O_CREAT | os.O_APPEND, 0o644)
     for w in spec["workloads"]:
         prepare_workload(w)
-        os.write(fd, ("BEGIN %s\n" % w["name"]).encode())
-        run_workload(w)
-        os.write(fd, ("END %s\n" % w["name"]).encode())
+        with in_dir(w.get("cwd")):
+            os.write(fd, ("BEGIN %s\n" % w["name"]).encode())
+            run_workload(w)
+            os.write(fd, ("END %s\n" % w["name"]).encode())
+            if w["kind"] == "product":
+                # the next user reads the complete product back from the same path: which names does the
+                # reader derive from it?  (second segment of the trace; changes nothing on disk)
+                os.write(fd, ("BEGIN %s#read\n" % w["name"]).encode())
+                read_named(w["what"], w["arg"], w.get("as_path", False))
+                os.write(fd, ("END %s#read\n" % w["name"]).encode())
     os.close(fd)
 
 
